@@ -1225,6 +1225,174 @@ fn mid_query(rep: &mut Report, w: &World, fp: u64, names: &[&str], replay: &dyn 
 // ---------------------------------------------------------------------------------------------
 // one scenario
 
+/// Every ordered pair of the four operations and the timer of the filter protocol
+/// (`GET_BLOCK_FILTERS_TOKEN`: it loads the pending matched-blocks record of the store into memory
+/// and asks for its blocks): the first is paused by the `lock_event` hook right IN FRONT of its
+/// critical section - it has done whatever it does before it takes the lock -, the second runs to
+/// completion, the first goes on.  Whatever the first has read before the lock is stale by then;
+/// the outcome has to be one of the two serial outcomes.  (Pairs with the timer start from the
+/// state after a restart: a record in the store, nothing in memory.)
+fn lock_race(rep: &mut Report, w: &World, fp: u64, replay: &dyn Fn(String) -> Vec<String>) {
+    use crate::protocols::filter_verif_exports::GET_BLOCK_FILTERS_TOKEN;
+    const NAMES: [&str; 5] = ["set", "filters", "block", "fork", "filter-timer"];
+    fn run_op(h: &Handle, ops: &[Op], i: usize) {
+        if i < 4 {
+            let _ = h.exec(&ops[i]);
+        } else {
+            let peer = PeerIndex::new(PEER);
+            let nc = MockContext::new(SupportProtocols::Filter);
+            nc.connect(peer);
+            let mut f = FilterProtocol::new(h.storage.clone(), Arc::clone(&h.peers));
+            block_on(f.notify(as_ctx(&nc), GET_BLOCK_FILTERS_TOKEN));
+        }
+    }
+    let fresh = |restart: bool| -> Option<Built> {
+        let b = match build(w) {
+            Ok(b) if b.fingerprint == fp => b,
+            _ => return None,
+        };
+        if restart {
+            b.node.i().peers.matched_blocks().write().unwrap().clear();
+        }
+        Some(b)
+    };
+    let mut serial: BTreeMap<(usize, usize), String> = BTreeMap::new();
+    for x in 0..5usize {
+        for y in 0..5usize {
+            if x == y {
+                continue;
+            }
+            let restart = x == 4 || y == 4;
+            // the serial outcomes of this pair
+            for (a, b2) in [(x, y), (y, x)] {
+                if serial.contains_key(&(a, b2)) {
+                    continue;
+                }
+                let b = match fresh(restart) {
+                    Some(b) => b,
+                    None => return,
+                };
+                let h = Handle::of(&b.node, w.seed);
+                let ops = b.ops.clone();
+                let (tx, rx) = mpsc::channel();
+                let h2 = h.clone();
+                std::thread::spawn(move || {
+                    super::seed_client_randomness(h2.seed);
+                    let r = catch(|| {
+                        run_op(&h2, &ops, a);
+                        run_op(&h2, &ops, b2);
+                    });
+                    let _ = tx.send(r.is_ok());
+                });
+                match join(&rx) {
+                    Ok(true) => {
+                        serial.insert((a, b2), show_outcome(&outcome_of(&b.node, w)));
+                    }
+                    _ => {
+                        std::mem::forget(b);
+                        rep.count_class("lock-race:serial-run-failed");
+                        return;
+                    }
+                }
+            }
+            // x paused in front of its critical section, y to completion, x goes on
+            let b = match fresh(restart) {
+                Some(b) => b,
+                None => return,
+            };
+            let h = Handle::of(&b.node, w.seed);
+            let (reached_tx, reached_rx) = mpsc::channel::<&'static str>();
+            let (go_tx, go_rx) = mpsc::channel::<()>();
+            let (done_tx, done_rx) = mpsc::channel::<bool>();
+            {
+                let h = h.clone();
+                let ops = b.ops.clone();
+                let done_tx = done_tx.clone();
+                std::thread::spawn(move || {
+                    super::seed_client_randomness(h.seed);
+                    let mut first = true;
+                    crate::verif_hooks::set_lock_event(Some(Box::new(move |site| {
+                        if first {
+                            first = false;
+                            let _ = reached_tx.send(site);
+                            let _ = go_rx.recv_timeout(Duration::from_millis(join_ms()));
+                        }
+                    })));
+                    let r = catch(|| run_op(&h, &ops, x));
+                    crate::verif_hooks::set_lock_event(None);
+                    let _ = done_tx.send(r.is_ok());
+                });
+            }
+            let site = match wait_for(&reached_rx, pause_ms() * 4) {
+                Ok(s) => s,
+                Err(_) => {
+                    // x has no critical section in this state (or has finished already)
+                    rep.count_class(&format!("lock-race:{}:no-critical-section", NAMES[x]));
+                    let _ = go_tx.send(());
+                    let _ = join(&done_rx);
+                    continue;
+                }
+            };
+            let (ydone_tx, ydone_rx) = mpsc::channel::<bool>();
+            {
+                let h = h.clone();
+                let ops = b.ops.clone();
+                std::thread::spawn(move || {
+                    super::seed_client_randomness(h.seed);
+                    let r = catch(|| run_op(&h, &ops, y));
+                    let _ = ydone_tx.send(r.is_ok());
+                });
+            }
+            let y_ok = match join(&ydone_rx) {
+                Ok(v) => v,
+                Err(_) => {
+                    rep.violate(
+                        &format!("C17|deadlock|pre-lock|{}-{}", NAMES[x], NAMES[y]),
+                        "an operation does not return while another one waits in front of its critical section (holding no lock)",
+                        replay(format!("# {} paused at `{}`, {} does not return", NAMES[x], site, NAMES[y])),
+                    );
+                    let _ = go_tx.send(());
+                    std::mem::forget(b);
+                    return;
+                }
+            };
+            let _ = go_tx.send(());
+            let x_ok = match join(&done_rx) {
+                Ok(v) => v,
+                Err(_) => {
+                    rep.violate(
+                        &format!("C17|deadlock|pre-lock|{}-{}", NAMES[x], NAMES[y]),
+                        "an operation paused in front of its critical section does not return after it is released",
+                        replay(format!("# {} paused at `{}`", NAMES[x], site)),
+                    );
+                    std::mem::forget(b);
+                    return;
+                }
+            };
+            rep.count_op("lock-race");
+            if !x_ok || !y_ok {
+                rep.violate(
+                    &format!("C17|abort|pre-lock|{}-{}", NAMES[x], NAMES[y]),
+                    "an operation aborts when another one ran while it waited in front of its critical section",
+                    replay(format!("# {} paused at `{}`; {} ok: {}, {} ok: {}", NAMES[x], site, NAMES[x], x_ok, NAMES[y], y_ok)),
+                );
+                continue;
+            }
+            let got = show_outcome(&outcome_of(&b.node, w));
+            let s_xy = &serial[&(x, y)];
+            let s_yx = &serial[&(y, x)];
+            rep.count_class(&format!("lock-race:{}", if got == *s_yx { "second-then-first" } else if got == *s_xy { "first-then-second" } else { "NEITHER" }));
+            if got != *s_xy && got != *s_yx {
+                rep.violate(
+                    &format!("C17|not-serializable|pre-lock|{}-{}", NAMES[x], NAMES[y]),
+                    "an operation that waited in front of its critical section while another one ran ends in a state that neither serial order produces: it acts on something it read before it took the lock",
+                    replay(format!("# {} paused at `{}` while {} ran\n# got   {}\n# {};{}  {}\n# {};{}  {}", NAMES[x], site, NAMES[y], got, NAMES[x], NAMES[y], s_xy, NAMES[y], NAMES[x], s_yx)),
+                );
+            }
+        }
+    }
+}
+
 fn pick_ks(n: u64, thorough: bool) -> Vec<u64> {
     if thorough || n <= 5 {
         (1..=n).collect()
@@ -1580,6 +1748,7 @@ fn scenario(rep: &mut Report, opts: &Options, si: usize, seed: u64, len: usize, 
 
     #[cfg(feature = "c17_reader_point")]
     mid_query(rep, &w, fp, &names, &replay);
+    lock_race(rep, &w, fp, &replay);
 
     // ---- triples on three free threads
     let mut rng = Rng::new(seed ^ 0x7217);
